@@ -130,4 +130,90 @@ func (c Coll) build() (any, error) {
 	}
 	return collOf(c.Nil, items), nil
 }
+
 var digits = []string{"0", "1", "2", "3", "4", "5", "6", "7", "8", "9"}
+
+// c09GenStart: a generated Date/DateTime/Time text (shared by C05 and C09).
+func c09GenStart(s Src) (kind, text string) {
+	// a day of the leap cycle 2019-03-01 … 2023-02-28, biased to month ends, or an edge
+	var y, m, d int64
+	switch s.Intn(10) {
+	case 0:
+		y, m, d = pickOne(s, []int64{1, 9999}), pickOne(s, []int64{1, 12}), pickOne(s, []int64{1, 31})
+	case 1, 2, 3:
+		y, m = int64(s.Range(2019, 2023)), int64(s.Range(1, 12))
+		d = daysInMonth(y, m) - int64(s.Intn(2))
+	case 4:
+		y, m, d = pickOne(s, []int64{2020, 2024, 2000, 1900}), 2, 29
+		if !isLeap(y) {
+			d = 28
+		}
+	default:
+		y, m, d = civilFromDays(daysFromCivil(2019, 3, 1) + int64(s.Intn(1461)))
+	}
+	date := []string{fmt.Sprintf("%04d", y), fmt.Sprintf("%04d-%02d", y, m), fmt.Sprintf("%04d-%02d-%02d", y, m, d)}
+	hh, mm, ss := s.Intn(24), s.Intn(60), s.Intn(60)
+	if s.Prob(25) {
+		hh, mm, ss = pickOne(s, []int{0, 23}), pickOne(s, []int{0, 59, 30}), pickOne(s, []int{0, 59})
+	}
+	times := []string{fmt.Sprintf("%02d", hh), fmt.Sprintf("%02d:%02d", hh, mm), fmt.Sprintf("%02d:%02d:%02d", hh, mm, ss), fmt.Sprintf("%02d:%02d:%02d.%03d", hh, mm, ss, pickOne(s, []int{0, 1, 500, 999}))}
+	switch s.Intn(3) {
+	case 0:
+		return "Date", date[s.Intn(3)]
+	case 1:
+		p := s.Intn(7)
+		if p < 3 {
+			return "DateTime", date[p] + "T"
+		}
+		off := pickOne(s, []string{"", "Z", "+05:30", "-11:00"})
+		return "DateTime", date[2] + "T" + times[p-3] + off
+	}
+	return "Time", times[s.Intn(4)]
+}
+
+func daysFromCivil(y, m, d int64) int64 {
+	if m <= 2 {
+		y--
+	}
+	era := y / 400
+	if y < 0 && y%400 != 0 {
+		era = (y - 399) / 400
+	}
+	yoe := y - era*400
+	mp := (m + 9) % 12
+	doy := (153*mp+2)/5 + d - 1
+	doe := yoe*365 + yoe/4 - yoe/100 + doy
+	return era*146097 + doe - 719468
+}
+
+func civilFromDays(z int64) (y, m, d int64) {
+	z += 719468
+	era := z / 146097
+	if z < 0 && z%146097 != 0 {
+		era = (z - 146096) / 146097
+	}
+	doe := z - era*146097
+	yoe := (doe - doe/1460 + doe/36524 - doe/146096) / 365
+	y = yoe + era*400
+	doy := doe - (365*yoe + yoe/4 - yoe/100)
+	mp := (5*doy + 2) / 153
+	d = doy - (153*mp+2)/5 + 1
+	m = mp + 3
+	if m > 12 {
+		m -= 12
+	}
+	if m <= 2 {
+		y++
+	}
+	return
+}
+
+func isLeap(y int64) bool { return y%4 == 0 && (y%100 != 0 || y%400 == 0) }
+
+func daysInMonth(y, m int64) int64 {
+	d := []int64{31, 28, 31, 30, 31, 30, 31, 31, 30, 31, 30, 31}[m-1]
+	if m == 2 && isLeap(y) {
+		d = 29
+	}
+	return d
+}
